@@ -179,6 +179,16 @@ package semantic
 //@   ensures inDom(ast.Name2Category, name) && ast.Name2Category[name] == parser.Category_Enum ==> enum != nil && enum.Name == name && includeIndex == -1
 //@   ensures enum != nil && includeIndex == -1 ==> inEnums(ast, enum)
 //@   ensures enum != nil && includeIndex >= 0 ==> inEnums(ast.Includes[includeIndex].Reference, enum)
+// The lookup proper: the number of typedef hops is bounded, so it terminates on cyclic typedefs too (C04: never hangs).
+//@ func getEnumWithin(ast *parser.Thrift, name string, hops int) (enum *parser.Enum, includeIndex int32)
+//@   requires ast != nil && wfThs() && tdRefsOK()
+//@   ensures enum == nil ==> includeIndex == -1
+//@   ensures includeIndex == -1 || (0 <= includeIndex && includeIndex < len(ast.Includes))
+//@   ensures !inDom(ast.Name2Category, name) ==> enum == nil
+//@   ensures hops > 0 && inDom(ast.Name2Category, name) && ast.Name2Category[name] == parser.Category_Enum ==> enum != nil && enum.Name == name && includeIndex == -1
+//@   ensures enum != nil && includeIndex == -1 ==> inEnums(ast, enum)
+//@   ensures enum != nil && includeIndex >= 0 ==> inEnums(ast.Includes[includeIndex].Reference, enum)
+//@   decreases hops
 
 // ---- constant identifiers (C05): the recorded binding denotes the constant or enum value the identifier names ----
 // A binding is read by its consumers (generator/golang Resolver.getIDValue, plugins) as: go to the file itself
